@@ -16,6 +16,18 @@ funcs = {rel: sorted(m.funcs) for rel, m in repo.modules.items()}
 os.makedirs(os.path.join(HERE, "reference"), exist_ok=True)
 json.dump(funcs, open(os.path.join(HERE, "reference", "functions.json"), "w"), indent=0, sort_keys=True)
 normalise._ref_funcs = None
+from sa.core import unparse
+import ast as _ast
+tests = {}
+for rel, m in repo.modules.items():
+    d = {}
+    for q, fn in m.funcs.items():
+        ts = sorted({str(unparse(n.test, 400)) for n in _ast.walk(fn) if isinstance(n, (_ast.If, _ast.While))})
+        if ts:
+            d[q] = ts
+    if d:
+        tests[rel] = d
+json.dump(tests, open(os.path.join(HERE, "reference", "tests.json"), "w"), indent=0, sort_keys=True)
 loc = {}
 for rel, m in repo.modules.items():
     if "externals/cloudpickle" in rel:
